@@ -15,8 +15,11 @@ Section SRUN.
     | [] => []
     | o :: r => match step w o with Some w' => Some (observe w') :: c11_spec_run w' r | None => [None] end
     end.
+  Fixpoint c11_spec_exec (w : W) (ops : list O) : option W :=
+    match ops with [] => Some w | o :: r => match step w o with Some w' => c11_spec_exec w' r | None => None end end.
 End SRUN.
 Arguments c11_spec_run {W O Obs} step observe w ops.
+Arguments c11_spec_exec {W O} step w ops.
 
 (* ---------------------------------------------------------------- ArrayList = list T (+ index of the held iterator) *)
 Section ALS.
@@ -67,6 +70,21 @@ Section SLS.
     let o1 (l : list T) := (length l, match l with [] => true | _ => false end, l) in
     (o1 (fst w), o1 (snd w), c11_list_eqb (fst w) (snd w), negb (c11_list_eqb (fst w) (snd w))).
   Definition c11_sls_run := c11_spec_run c11_sls_step c11_sls_observe.
+  (* where the documentation says the ModifyIterator stands afterwards: insert(v) "will point to the same element as before",
+     remove() "will be positioned at the next position after the deletion" *)
+  Definition c11_sls_probe (w : c11_sls_world) (o : c11_sl_op T) : option (option T) :=
+    let sel (i : bool) := if i then snd w else fst w in
+    match o with
+    | SlMIns _ i k _ => Some (nth_error (sel i) k)
+    | SlMRem _ i k => Some (nth_error (sel i) (S k))
+    | SlMInsEnd _ _ _ => Some None
+    | _ => None
+    end.
+  Definition c11_sls_world2 : Type := c11_sls_world * option (option T).
+  Definition c11_sls_step2 (w : c11_sls_world2) (o : c11_sl_op T) : option c11_sls_world2 :=
+    match c11_sls_step (fst w) o with Some w' => Some (w', c11_sls_probe (fst w) o) | None => None end.
+  Definition c11_sls_observe2 (w : c11_sls_world2) : c11_sl_obs T * option (option T) := (c11_sls_observe (fst w), snd w).
+  Definition c11_sls_run2 := c11_spec_run c11_sls_step2 c11_sls_observe2.
 End SLS.
 
 (* ---------------------------------------------------------------- lru = recency-ordered association list, unique keys *)
@@ -146,6 +164,11 @@ Section RVS.
     let '(a, b, r) := w in
     (c11_rvs_obs1 a, c11_rvs_obs1 b, (c11_rvs_eq a b, c11_rvs_lt a b, c11_rvs_lt b a), r).
   Definition c11_rvs_run := c11_spec_run c11_rvs_step c11_rvs_observe.
+  (* !=, >, <=, >= of the lexicographic order (None as soon as an unspecified value is inspected) *)
+  Definition c11_rvs_observe2 (w : c11_rvs_world) : c11_rvs_obs * (option bool * option bool * option bool * option bool) :=
+    let '(a, b, _) := w in
+    (c11_rvs_observe w, (option_map negb (c11_rvs_eq a b), c11_rvs_lt b a, option_map negb (c11_rvs_lt b a), option_map negb (c11_rvs_lt a b))).
+  Definition c11_rvs_run2 := c11_spec_run c11_rvs_step c11_rvs_observe2.
 End RVS.
 
 (* ---------------------------------------------------------------- BitSetVector = list of std::bitset<bs> *)
@@ -173,9 +196,18 @@ Section BVS.
     | BvShl i k => c11_bvs_upd w i (fun r => c11_bitset_shl r k)
     | BvShr i k => c11_bvs_upd w i (fun r => c11_bitset_shr r k)
     end.
+  Fixpoint c11_bits_eqb (a b : list bool) : bool :=
+    match a, b with [], [] => true | x :: a', y :: b' => Bool.eqb x y && c11_bits_eqb a' b' | _, _ => false end.
+  (* std::bitset count/any/none/all, == with the next block (cyclically), ~ *)
+  Definition c11_bvs_queries (w : c11_bvs_world) (i : nat) (b : list bool) : c11_bv_qobs :=
+    (c11_bitset_count b, existsb (fun x => x) b, negb (existsb (fun x => x) b), forallb (fun x => x) b,
+     c11_bits_eqb b (nth (S i mod length w) w []), map negb b).
+  Fixpoint c11_bvs_queries_from (w : c11_bvs_world) (i : nat) (l : list (list bool)) : list c11_bv_qobs :=
+    match l with [] => [] | b :: r => c11_bvs_queries w i b :: c11_bvs_queries_from w (S i) r end.
   Definition c11_bvs_observe (w : c11_bvs_world) : c11_bv_obs :=
     (w, fold_right (fun b acc => c11_bitset_count b + acc) 0 w,
-     map (fun j => length (filter (fun b => nth j b false) w)) (seq 0 bs)).
+     map (fun j => length (filter (fun b => nth j b false) w)) (seq 0 bs),
+     c11_bvs_queries_from w 0 w).
   Definition c11_bvs_run := c11_spec_run c11_bvs_step c11_bvs_observe.
 End BVS.
 
@@ -202,4 +234,9 @@ Section RVM.
     let '(ma, mb, (e, l1, l2), r) := m in
     let '(sa, sb, (se, sl1, sl2), sr) := s in
     c11_rv_obs1_match ma sa /\ c11_rv_obs1_match mb sb /\ c11_vmatch e se /\ c11_vmatch l1 sl1 /\ c11_vmatch l2 sl2 /\ c11_rv_at_match r sr.
+  Definition c11_rv_obs_match2 (m : c11_rv_obs T * (bool * bool * bool * bool))
+                                (s : c11_rvs_obs T * (option bool * option bool * option bool * option bool)) : Prop :=
+    c11_rv_obs_match (fst m) (fst s) /\
+    let '(n, g, l, h) := snd m in let '(sn, sg, sl, sh) := snd s in
+    c11_vmatch n sn /\ c11_vmatch g sg /\ c11_vmatch l sl /\ c11_vmatch h sh.
 End RVM.
